@@ -327,10 +327,15 @@ func inLoopBody(hdr, blk *ssa.BasicBlock) bool {
 	return len(hdr.Succs) > 0 && hdr.Succs[0].Dominates(blk)
 }
 
-// loopBodyStart: the block from which conditions inside the body are taken (the header itself for a
-// bottom-tested loop).
-func loopBodyStart(hdr *ssa.BasicBlock) *ssa.BasicBlock {
+// BodyStart: the block from which conditions inside the body are taken: the first body block of a
+// top-tested loop; the header itself for a bottom-tested loop (whose continue condition is then not
+// made part of conditions taken from it, exactly as the header test of a top-tested loop is not).
+func (n *Normer) BodyStart(hdr *ssa.BasicBlock) *ssa.BasicBlock {
 	if _, ok := rotatedLoop(hdr); ok {
+		if n.bodyFrom == nil {
+			n.bodyFrom = map[*ssa.BasicBlock]bool{}
+		}
+		n.bodyFrom[hdr] = true
 		return hdr
 	}
 	return hdr.Succs[0]
@@ -396,4 +401,59 @@ func sameValue(a, b ssa.Value) bool {
 		return ca.Value.ExactString() == cb.Value.ExactString()
 	}
 	return false
+}
+
+// tableRead: an element read of a table, whether the table is a map (Lookup) or an array / slice
+// (Index, or the load of an IndexAddr): the instruction that yields the element.
+func tableRead(ins ssa.Instruction) (ssa.Value, bool) {
+	switch x := ins.(type) {
+	case *ssa.Lookup:
+		if _, isMap := x.X.Type().Underlying().(*types.Map); isMap {
+			return x, true
+		}
+	case *ssa.Index:
+		return x, true
+	case *ssa.UnOp:
+		if x.Op == token.MUL {
+			if _, ok := x.X.(*ssa.IndexAddr); ok {
+				return x, true
+			}
+		}
+	}
+	return nil, false
+}
+
+// canonAccess rewrites every idx(X,k) of a normal form as X[k]: an element access reads the same
+// whether the table is a map or an array.
+func canonAccess(s string) string {
+	for {
+		i := strings.Index(s, "idx(")
+		if i < 0 {
+			return s
+		}
+		// matching parenthesis and the last top-level comma
+		depth, comma, end := 0, -1, -1
+		for j := i + 3; j < len(s); j++ {
+			switch s[j] {
+			case '(', '[':
+				depth++
+			case ')', ']':
+				depth--
+				if depth == 0 && s[j] == ')' {
+					end = j
+				}
+			case ',':
+				if depth == 1 {
+					comma = j
+				}
+			}
+			if end >= 0 {
+				break
+			}
+		}
+		if end < 0 || comma < 0 {
+			return s
+		}
+		s = s[:i] + s[i+4:comma] + "[" + s[comma+1:end] + "]" + s[end+1:]
+	}
 }
